@@ -251,3 +251,21 @@ Definition x_bad (keep gr : bool) (w : list xcall) (expected : list bool) : list
     | x :: r, y :: t => if Bool.eqb x y then go (S n) r t else n :: go (S n) r t
     | _, _ => [n]
     end in go 0%nat m expected.
+
+(* ---------------------------------------------------------------- empty simulation (N = 0): Model.guarded true step = identity,
+   i.e. a Step call behaves like a call that does not touch the integrator (GetParticles); N_allocated == N from the start *)
+Lemma guarded_empty_is_identity {S : Type} (f : S -> S) (s : S) : guarded true f s = s.
+Proof. reflexivity. Qed.
+Definition w_fresh_empty : @wst H H := {| part := []; pjh := []; is_sync := true; recalc := false; alloc := true |}.
+Definition w_empty_calls (w : list wx) : list wx := map (fun k => match k with WX Step => WX GetParticles | _ => k end) w.
+Definition w_bad_empty (dt : float) (c : wcfg) (w : list wx) (expected : list (H * list bool * bool)) : list nat :=
+  cmp_from 0 (w_trace dt (c, w_fresh_empty) (w_empty_calls w)) expected.
+Definition s_fresh_empty : @sst H H :=
+  {| spart := []; spjh := []; s_is_sync := true; s_recalc := false; s_alloc := true; s_crashed := false |}.
+Definition s_empty_calls (w : list sx) : list sx := map (fun k => match k with SX SStep => SX SGetParticles | _ => k end) w.
+Definition s_bad_empty (dt : float) (c : @scfg float) (w : list sx) (expected : list (H * list bool * bool)) : list nat :=
+  cmp_from 0 (s_trace dt c s_fresh_empty (s_empty_calls w)) expected.
+Definition m_fresh_empty : @mst H unit :=
+  {| mp := []; md := tt; m_is_sync := true; m_recalc := false; m_recalc_rcrit := false; m_alloc := true |}.
+Definition m_bad_empty (dt : float) (safe : bool) (w : list mcall) (expected : list (H * list bool * bool)) : list nat :=
+  cmp_from 0 (m_trace dt safe m_fresh_empty (map (fun k => match k with MStep => MNop | _ => k end) w)) expected.
